@@ -244,6 +244,16 @@ fn sweep(ctx: &Ctx, ln: u32, sp: &Space, cfgs: &[u8], b: &Bounds, max_total_len:
         for p in [1usize, 2, 3, 7] {
             chk.one(acc, i, &input, &refs, &spans, &Script::pieces(p), p <= 3, off);
         }
+        // the consumer's buffer: never cleared, or holding bytes of an earlier use that look like half a
+        // terminator ("-", "--", "]", "]]", "?", "<!--", "<![CDATA[", a quote, "<") — the scanners must
+        // only look at what they appended themselves
+        for policy in 1..=(1 + USER_BUF_JUNK.len() as u8) {
+            for p in [1usize, 2, 0] {
+                let mut sc = if p == 0 { Script::whole() } else { Script::pieces(p) };
+                sc.user_buf = policy;
+                chk.one(acc, i, &input, &refs, &spans, &sc, false, off);
+            }
+        }
         if n <= 1 {
             return;
         }
@@ -304,6 +314,13 @@ fn stretch_sweep(ctx: &Ctx, ln: u32, st: &Stretch, cfgs: &[u8], all_cuts: usize,
                 continue;
             }
             chk.one(acc, i, &input, &refs, &spans, &Script::pieces(p), n / p <= 40, off);
+            if p == 7 || p == 64 {
+                for policy in [1u8, 3, 5, 6] {
+                    let mut sc = Script::pieces(p);
+                    sc.user_buf = policy;
+                    chk.one(acc, i, &input, &refs, &spans, &sc, false, off);
+                }
+            }
         }
         if n <= 1 {
             return;
@@ -603,7 +620,7 @@ pub fn run(ctx: &Ctx) {
          every <=k-cut set for longer ones, uniform piece sizes; also NsReader (resolved events + prefix listing) over an 11-atom namespace alphabet, and raw reads through Reader::stream() between events (read_exact, fill_buf+consume, async read_exact); sources: buffered (read_event_into over a scripted BufRead) \
          and async (read_event_into_async over a scripted AsyncBufRead polled by hand), the latter also with every \
          placement of up to k Poll::Pending answers. Oracle: the trace of the borrowing reader (events, errors, \
-         buffer_position after every event and recoverable error, error_position after every call, two extra calls after Eof; the resting position after a fatal syntax error is not compared), under four configurations (neutral, default, all switches on, neutral + text trimming). non-trivial = some cut falls strictly inside a markup construct (spans from the \
+         buffer_position after every event and recoverable error, error_position after every call, two extra calls after Eof; the resting position after a fatal syntax error is not compared), under four configurations (neutral, default, all switches on, neutral + text trimming). The consumer's buffer is cleared before every call, or never cleared, or reset to bytes that look like half a terminator (10 policies on pieces of 1, 2 and whole). non-trivial = some cut falls strictly inside a markup construct (spans from the \
          reference lexer); counted per (input, schedule), distinct by construction. states = distinct (event-kind \
          sequence, refill count) signatures",
     );
